@@ -75,8 +75,7 @@ theorem fmtStr_safe (s : Txt) (h : s.all safeByte = true) : fmtStr s = s := by
 
 theorem scalar_rt (ar : Arith) (bt : Nat) (isBool : Bool) (scale offset : Nat) (units : Txt) (v : Value)
     (h : scalarOK bt isBool v = true) (hu : ¬(units = degreesTxt ∧ bt = btSint32))
-    (hf : (bt = btFloat32 ∨ bt = btFloat64) → isScaledField scale offset = false)
-    (h64 : ∀ x, v ≠ .int64 x) :
+    (hf : (bt = btFloat32 ∨ bt = btFloat64) → isScaledField scale offset = false) :
     parseCellValue ar (cellPieces (formatAtoms v)) bt isBool false scale offset units = .ok (csvNormS v) := by
   cases v with
   | bool x =>
@@ -148,7 +147,12 @@ theorem scalar_rt (ar : Arith) (bt : Nat) (isBool : Bool) (scale offset : Nat) (
     rcases hbt with hbt | hbt <;> subst hbt <;>
       simp [cellPieces, parseCellValue, parseAtom, btIsUint8, inRangeU_of_lt hv, csvNormS,
         btSint8, btSint16, btUint16, btUint16z, btSint32, btUint32, btUint32z, btEnum, btByte, btUint8, btUint8z]
-  | int64 x => exact absurd rfl (h64 x)
+  | int64 x =>
+    simp only [scalarOK, Bool.and_eq_true, Bool.not_eq_eq_eq_not, Bool.not_true, decide_eq_true_eq, beq_iff_eq] at h
+    obtain ⟨⟨hb, hbt⟩, hv⟩ := h
+    subst hb; subst hbt
+    simp [formatAtoms, cellPieces, parseCellValue, parseAtom, btIsUint8, inRangeS_sint64, pat_sint64, Nat.mod_eq_of_lt hv, csvNormS,
+      btSint8, btSint16, btUint16, btUint16z, btSint32, btUint32, btUint32z, btSint64, btEnum, btByte, btUint8, btUint8z]
   | uint64 x =>
     simp only [scalarOK, Bool.and_eq_true, Bool.not_eq_eq_eq_not, Bool.not_true, decide_eq_true_eq, Bool.or_eq_true, beq_iff_eq] at h
     obtain ⟨⟨hb, hbt⟩, hv⟩ := h
@@ -162,13 +166,13 @@ theorem scalar_rt (ar : Arith) (bt : Nat) (isBool : Bool) (scale offset : Nat) (
         btSint8, btSint16, btUint16, btUint16z, btSint32, btUint32, btUint32z, btSint64, btUint64, btUint64z, btEnum, btByte, btUint8, btUint8z]
   | float32 b =>
     simp only [scalarOK, Bool.and_eq_true, Bool.not_eq_eq_eq_not, Bool.not_true, decide_eq_true_eq, beq_iff_eq] at h
-    obtain ⟨⟨hb, hbt⟩, _⟩ := h
+    obtain ⟨⟨⟨hb, hbt⟩, _⟩, _⟩ := h
     subst hb; subst hbt
     have hs := hf (Or.inl rfl)
     simp [formatAtoms, cellPieces, parseCellValue, parseAtom, csvNormS, hs, btFloat32, btSint32]
   | float64 b =>
     simp only [scalarOK, Bool.and_eq_true, Bool.not_eq_eq_eq_not, Bool.not_true, decide_eq_true_eq, beq_iff_eq] at h
-    obtain ⟨⟨hb, hbt⟩, _⟩ := h
+    obtain ⟨⟨⟨hb, hbt⟩, _⟩, _⟩ := h
     subst hb; subst hbt
     have hs := hf (Or.inr rfl)
     simp [formatAtoms, cellPieces, parseCellValue, parseAtom, csvNormS, hs, btFloat32, btFloat64, btSint32]
